@@ -91,7 +91,6 @@ structure DecSt where
   n : Nat := 0                             -- bytes consumed from the data area
   crc : BitVec 16 := 0#16
   hdr : Header := {}
-  cleanEOF : Bool := false                 -- the reader ended before the first header byte
   file : Option FileSt := none
   unkInit : Bool := false                  -- the unknown-item maps exist (defers registered)
   unkF : List ((Nat × Nat) × Nat) := []
@@ -106,6 +105,7 @@ structure Outcome where
   err : Option ErrClass
   panic : Bool := false
   st : DecSt
+  cleanEOF : Bool := false                 -- errReadSize: the reader ended before the first header byte
 deriving Repr, Inhabited
 
 /-- Go zero value of a struct field -/
